@@ -262,3 +262,62 @@ def run(ck, prog):
     _run_pre_negcast(ck, prog)
     from sa import negcast
     negcast.run_rule(ck, prog, set(DIMENSION_FILES))
+
+
+# ------------------------------------------------------------------ dot / max_diff: the same shape contract on every backend
+_run_pre_dotgate = run
+BACKEND_DOT = [
+    ("dense", r"^<linalg::naive::dense_matrix::DenseMatrix<T> as linalg::BaseMatrix<T>>::dot$"),
+    ("ndarray", r"^linalg::ndarray_bindings::<impl linalg::BaseMatrix<T> for ndarray::ArrayBase<ndarray::OwnedRepr<T>, ndarray::Dim<\[usize; 2\]>>>::dot$"),
+    ("nalgebra", r"^linalg::nalgebra_bindings::<impl linalg::BaseMatrix<T> for nalgebra::Matrix<T, nalgebra::Dynamic, nalgebra::Dynamic, nalgebra::VecStorage<T, nalgebra::Dynamic, nalgebra::Dynamic>>>::dot$"),
+]
+
+
+def dot_gate_all_backends(ck, prog):
+    """'shape mismatches are handled the same way by all backends': BaseMatrix::dot is the inner product of two row/column
+    vectors; on every backend a return is reachable exactly when each operand has a unit dimension (truth table over the four
+    unit-dimension tests, as for the built-in type in C03)."""
+    from sa.siblings import dot_vector_gate
+    rule = "E6-contract"
+    for nm, rx in BACKEND_DOT:
+        inst = f"{nm} BaseMatrix::dot rejects an operand that is not a row or column vector"
+        bs = prog.find(rx)
+        if len(bs) != 1:
+            ck.violation(rule, inst, rx, "", expected="anchor exists", found=f"{len(bs)} bodies")
+            continue
+        b = bs[0]
+        n, bad = dot_vector_gate(b)
+        site = f"{b.loc[0]}:{b.loc[1]}"
+        if bad:
+            ck.violation(rule, inst, b.path, site, expected="a return is reachable iff each operand has a unit dimension (as on the built-in backend)",
+                         found=f"{'; '.join(bad[:6])} ({n} unit-dimension tests)")
+        else:
+            ck.ok(rule, inst, b.path, site, f"16 assignments, {n} unit-dimension tests: rejected exactly when an operand is a proper matrix")
+
+
+def run(ck, prog):
+    _run_pre_dotgate(ck, prog)
+    dot_gate_all_backends(ck, prog)
+
+
+_run_pre_maxdiff = run
+
+
+def max_diff_contract(ck, prog):
+    """max_diff is overridden on all three backends with hand-written loops; the trait default (sub().abs().max()) rejects a
+    shape mismatch, and so must every override - otherwise the built-in type compares raw buffers while the bindings index
+    out of bounds or silently ignore the extra rows."""
+    from sa import e1
+    from sa.e1 import G, NE, EQ
+    from sa.match import Dim
+    specs = []
+    for nm, rx in BACKEND_DOT:
+        fn = rx.replace("::dot$", "::max_diff$")
+        specs.append(G(f"{nm} max_diff: rows(self)!=rows(other)->panic", fn, Dim("rows", 1), Dim("rows", 2), NE, EQ, "panic", rule="E6-contract"))
+        specs.append(G(f"{nm} max_diff: cols(self)!=cols(other)->panic", fn, Dim("cols", 1), Dim("cols", 2), NE, EQ, "panic", rule="E6-contract"))
+    e1.run(ck, prog, specs)
+
+
+def run(ck, prog):
+    _run_pre_maxdiff(ck, prog)
+    max_diff_contract(ck, prog)
